@@ -413,14 +413,16 @@ pub fn t_cycle<'a>(a: S<'a, u32>) {
     all.all_ticks().embedded_output("out");
 }
 
-/// C29 finding witness: the right (build) side is Bounded but NoOrder; `Stream::join` types the
-/// result with the LEFT ordering (`B2::PreserveOrderIfBounded<O>` ignores `O2`), so this compiles
-/// with `embedded_output` (which requires TotalOrder) and no `assume_ordering`, although the order
-/// of the matches of one left item follows the arrival order of the unordered right side.
+/// Former C29 finding witness (fixed in /repo by 62bf4bf2be4): the right (build) side is Bounded
+/// but NoOrder.  `Stream::join` used to type the result with the LEFT ordering, so this flow
+/// compiled with `embedded_output` (TotalOrder) and no `assume_ordering`.  Since the fix the result
+/// is NoOrder (the correspondence asserts this on the JoinHalf node's metadata in the builder's IR
+/// dump), and a TotalOrder view needs an explicit non-determinism guard.
 pub fn t_join_half_unord<'a>(a: S<'a, KV>, b: S<'a, KV>) {
     let (ba, bb) = b2(a, b);
     ba.join(bb.weaken_ordering::<NoOrder>())
         .all_ticks()
+        .assume_ordering::<TotalOrder>(nondet!(/** observation only */))
         .embedded_output("out");
 }
 
